@@ -2,8 +2,9 @@ from common import *
 from regcommon import *
 import C01, C02
 ID = 'C04'
-TRANSLATORS = []
-COQ_TARGETS = ['Properties_C04.vo']
+TRANSLATORS = [('consts2coq.py', ['coq/Gen/Consts.v'])]
+GEN_FILES = ['coq/Gen/Consts.v']
+COQ_TARGETS = ['Properties_C04.vo', 'Proof/ConstsReg.vo']
 HARNESS_MODS = ['reg']
 RULE = ('reg.run cases (see C01) starting with register_init on arbitrary - mostly ill-formed - descriptions: 0-3 areas with bases/sizes from a small grid (adjacent, overlap by one word, reversed order, equal '
         'bases, size 0), 0-5 registers of all sizes at every placement incl. straddling area ends and holes, defaults inside/outside the constraint, skip-defaults and no-write-callback areas; then one each of '
